@@ -1930,6 +1930,9 @@ def rule_P11(ctx, rid='P11'):
             if not isinstance(st, ast.If):
                 continue
             t = st.test
+            flipped = False
+            while isinstance(t, ast.UnaryOp) and isinstance(t.op, ast.Not):
+                t, flipped = t.operand, not flipped
             if not (isinstance(t, ast.Compare) and len(t.ops) == 1 and
                     isinstance(t.ops[0], (ast.Eq, ast.NotEq)) and
                     isinstance(t.comparators[0], ast.Constant) and
@@ -1948,8 +1951,8 @@ def rule_P11(ctx, rid='P11'):
                             isinstance(x.value, ast.Name) and x.value.id in prog.classes:
                         return x.value.id, x
                 return None, None
-            eq_branch, ne_branch = (st.body, st.orelse) if isinstance(t.ops[0], ast.Eq) else \
-                (st.orelse, st.body)
+            eq_branch, ne_branch = (st.body, st.orelse) if \
+                isinstance(t.ops[0], ast.Eq) != flipped else (st.orelse, st.body)
             ce, xe = bound_class(eq_branch)
             cn, xn = bound_class(ne_branch)
             if ce is None and cn is None:
